@@ -41,14 +41,21 @@ def gen(rng, tier):
         ntr = rng.choice([1, 2, 3, 4])
         n = rng.randint(max(12, 4 * ntr), 120)
         lims = _lims(rng, n, ntr) if (ntr > 1 or rng.random() < 0.5) else None
+        tiny = kind == 'filter' and rng.random() < 0.15
+        if tiny:            # files of one or two frames (a single row with several columns)
+            n = rng.choice([1, 1, 2])
+            lims = rng.choice([None, [n]] + ([[1, 1]] if n == 2 else []))
+        # the limits file is rewritten in place: an earlier partition of the same frames was stored
+        # (and loaded) under the same path before
+        pre = _lims(rng, n, rng.randint(1, 4)) if (lims is not None and n >= 12 and rng.random() < 0.5) else None
         if kind == 'coring':
             labs, _ = G.alphabet(rng, k=rng.randint(2, 4), kind=rng.choice(['zero', 'one', 'gapped']))
             traj = G.traj(rng, labs, n, sticky=0.85)
-            yield {'k': kind, 'traj': traj, 'lims': lims, 'tcor': rng.choice([1, 2, 3, 5])}
+            yield {'k': kind, 'traj': traj, 'lims': lims, 'tcor': rng.choice([1, 2, 3, 5]), 'prelims': pre}
         elif kind == 'filter':
-            nc = rng.randint(1, 4)
+            nc = rng.randint(2, 4) if tiny else rng.randint(1, 4)
             data = [[round(rng.uniform(-9, 9), 3) for _ in range(nc)] for _ in range(n)]
-            yield {'k': kind, 'data': data, 'lims': lims, 'sigma': rng.choice([1.0, 1.5, 2.0, 4.0])}
+            yield {'k': kind, 'data': data, 'lims': lims, 'sigma': rng.choice([1.0, 1.5, 2.0, 4.0]), 'prelims': pre}
         else:
             t1 = G.traj(rng, [1, 2, 3], n, sticky=0.7)
             t2 = [v if rng.random() < 0.8 else rng.choice([4, 5, 6]) for v in t1]
@@ -82,9 +89,19 @@ def impl(case):
         if case.get('lims') is not None:
             lf = os.path.join(d, 'limits.dat')
             open(lf, 'w').write('\n'.join(map(str, case['lims'])) + '\n')
+        def stale_limits(f, micro):
+            # the same path held another partition of the same frames a moment ago and was loaded
+            if case.get('prelims') and lf:
+                open(lf, 'w').write('\n'.join(map(str, case['prelims'])) + '\n')
+                try:
+                    (mh.openmicrostates if micro else mh.opentxt_limits)(f, limits_file=lf)
+                except Exception:  # noqa
+                    pass
+                open(lf, 'w').write('\n'.join(map(str, case['lims'])) + '\n')
         if case['k'] == 'coring':
             f, o = os.path.join(d, 'traj.dat'), os.path.join(d, 'out.dat')
             open(f, 'w').write('# states\n' + '\n'.join(map(str, case['traj'])) + '\n')
+            stale_limits(f, True)
             args = ['dynamical-coring', '-i', f, '-t', str(case['tcor']), '-o', o] + (['-c', lf] if lf else [])
             res = runner.invoke(main, args)
             out = {'exit': res.exit_code, 'exc': type(res.exception).__name__ if res.exception else None}
@@ -102,6 +119,7 @@ def impl(case):
         if case['k'] == 'filter':
             f, o = os.path.join(d, 'data.dat'), os.path.join(d, 'out.dat')
             open(f, 'w').write('\n'.join(' '.join(repr(v) for v in row) for row in case['data']) + '\n')
+            stale_limits(f, False)
             args = ['gaussian-filtering', '-i', f, '-s', str(case['sigma']), '-o', o] + (['-c', lf] if lf else [])
             res = runner.invoke(main, args)
             out = {'exit': res.exit_code, 'exc': type(res.exception).__name__ if res.exception else None}
@@ -191,6 +209,11 @@ def judge(case, ibc, answers):
                 continue
             wq = [Fraction(v) for v in weights(case['sigma'])]
             pos = 0
+            want = case['lims'] or [n]
+            if [len(part) // nc for part in r['loaded']] != want:
+                P('impl-vs-spec', 'the file is split into pieces of %s frames, the limits on disk say %s' % (
+                    [len(part) // nc for part in r['loaded']], want))
+                continue
             for part in r['loaded']:          # exact per-part, per-column filter of the loaded float32 data
                 rows = len(part) // nc
                 for j in range(nc):
